@@ -37,7 +37,7 @@ func (g G) RefWorld(nPaths int, simple bool) m.WorldM {
 }
 
 var (
-	refNames = []string{"a", "b", "c"}
+	refNames = []string{"a", "b", "cé"} // (one multi-byte identifier: columns and prefixes must count characters, not bytes)
 	refTypes = []string{"aws", "az"}
 )
 
